@@ -6,7 +6,7 @@ Every theorem quantifies over `Reach s`: every configuration reachable by ANY sc
 goroutines, each issuing any number of calls with any keys, the user function returning anything after any
 number of other goroutines' steps.
 -/
-import GoZero.C07.ProofsSF
+import GoZero.C07.ProofsSFX
 import GoZero.C07.ProofsLC
 import GoZero.C07.ProofsRM
 set_option linter.unusedSimpArgs false
@@ -34,6 +34,21 @@ theorem sf_exclusive_fn {s : SF.St} (h : SF.Reach s) (t u : Tid)
     (ht : s.pc t = .m1) (hu : s.pc u = .m1) (hk : s.key t = s.key u) : t = u :=
   sf_exclusive h t u (by simp [ht, SF.PC.inFlight]) (by simp [hu, SF.PC.inFlight]) hk
 
+/-- **History form of the exclusion**: the execution intervals `[fstart, fend]` of two different call objects of
+the same key are disjoint — one of them ended before the other started. -/
+theorem sf_exec_disjoint {s : SF.St} (h : SF.Reach s) (c d : CallId) (hne : c ≠ d) (hk : s.ekey c = s.ekey d)
+    (a a' : Nat) (hc : s.fstart c = some a) (hd : s.fstart d = some a') :
+    (∃ b, s.fend c = some b ∧ b < a') ∨ (∃ b, s.fend d = some b ∧ b < a) := by
+  rcases (SF.invX_reach h).disj c d a a' hne hk hc hd with h1 | h1
+  · left
+    cases hf : s.fend c with
+    | none => rw [hf] at h1; exact absurd h1 (by simp [SF.endsBefore])
+    | some b => rw [hf] at h1; exact ⟨b, rfl, h1⟩
+  · right
+    cases hf : s.fend d with
+    | none => rw [hf] at h1; exact absurd h1 (by simp [SF.endsBefore])
+    | some b => rw [hf] at h1; exact ⟨b, rfl, h1⟩
+
 /-- **No stale result.**  Every returned call `r` got exactly what the (single) execution of the function
 for call object `r.exec` returned, that execution was for `r`'s key, and either `r` is the leading call of that
 execution itself (then it is reported fresh) or the leading call overlaps `r` in time: it was invoked before
@@ -54,6 +69,75 @@ object `c`, the number reported fresh is 1 once the leading call has returned, a
 theorem sf_one_fresh {s : SF.St} (h : SF.Reach s) (c : CallId) :
     (s.rets.filter (fun r => r.fresh && r.exec == c)).length = if (s.lret c).isSome then 1 else 0 :=
   SF.fresh_reach h c
+
+/-- a SingleFlight step is disabled only at the mutex or at a wait group. -/
+theorem sf_blocked_cases {s : SF.St} {t : Tid} {x : Nat} (hb : SF.step s t x = none) :
+    ((s.pc t = .l0 ∨ s.pc t = .d0) ∧ s.lock ≠ none) ∨ (s.pc t = .w1 ∧ s.wg (s.reg t) ≠ 0) := by
+  unfold SF.step at hb
+  split at hb <;> (try split at hb) <;> simp_all
+
+theorem sf_holder_enabled {s : SF.St} (u : Tid) (hu : (s.pc u).holdsLock = true) (y : Nat) :
+    (SF.step s u y).isSome = true := by
+  unfold SF.step
+  revert hu
+  cases hp : s.pc u <;> simp [SF.PC.holdsLock]
+  split <;> simp
+
+/-- **Who a blocked SingleFlight caller waits for**: the holder of the mutex — who is inside one of the short
+critical sections, never in user code, and can always take its next step — or, at `c.wg.Wait()`, the leader of a
+flight *for the same key* that has not called `Done` yet. Calls on other keys are never waited for. -/
+theorem sf_keys_independent {s : SF.St} (h : SF.Reach s) (t : Tid) (x : Nat) (hb : SF.step s t x = none) :
+    (∃ u, s.lock = some u ∧ (s.pc u).holdsLock = true ∧ ∀ y, (SF.step s u y).isSome = true) ∨
+    (s.pc t = .w1 ∧ ∃ u, s.key u = s.key t ∧ (s.pc u).wgOne = true ∧ s.reg u = s.reg t) := by
+  have hi := SF.inv_reach h
+  rcases sf_blocked_cases hb with ⟨_, hl⟩ | ⟨hp, hw⟩
+  · left
+    cases hlk : s.lock with
+    | none => exact absurd hlk hl
+    | some u => exact ⟨u, rfl, hi.lockr u hlk, fun y => sf_holder_enabled u (hi.lockr u hlk) y⟩
+  · right
+    refine ⟨hp, s.leader (s.reg t), ?_⟩
+    obtain ⟨a1, a2, _, a4⟩ := hi.waits t (by simp [hp, SF.PC.waits])
+    rcases a4 with hl | ⟨hpub, hreg⟩
+    · exact absurd (hi.done _ a1 hl).2 hw
+    · have hown := hi.owns (s.leader (s.reg t)) (by revert hpub; cases s.pc (s.leader (s.reg t)) <;> simp [SF.PC.pubd, SF.PC.owns])
+      have hk : s.key (s.leader (s.reg t)) = s.key t := by rw [← hown.2.2.1, hreg, a2]
+      refine ⟨hk, ?_, hreg⟩
+      -- published and counter ≠ 0 ⇒ not yet past Done
+      have h0 := hi.wg0 (s.leader (s.reg t))
+      rw [hreg] at h0
+      revert hpub h0
+      cases s.pc (s.leader (s.reg t)) <;> simp [SF.PC.pubd, SF.PC.wgOne] <;> omega
+
+/-- **No deadlock, no lost wake-up**: whenever some call is in progress, some goroutine that is inside a call
+can take a step (for every environment input). -/
+theorem sf_no_deadlock {s : SF.St} (h : SF.Reach s) (t : Tid) (ht : s.pc t ≠ .idle) :
+    ∃ u, s.pc u ≠ .idle ∧ ∀ y, (SF.step s u y).isSome = true := by
+  have hi := SF.inv_reach h
+  -- a goroutine that is enabled for one input is enabled for all (enabledness does not depend on the input)
+  have indep : ∀ u y z, (SF.step s u y).isSome = true → (SF.step s u z).isSome = true := by
+    intro u y z
+    unfold SF.step
+    cases s.pc u <;> simp <;> (try split) <;> simp
+  have lockcase : s.lock ≠ none → ∃ u, s.pc u ≠ .idle ∧ ∀ y, (SF.step s u y).isSome = true := by
+    intro hl
+    cases hlk : s.lock with
+    | none => exact absurd hlk hl
+    | some u =>
+      have hh := hi.lockr u hlk
+      exact ⟨u, by revert hh; cases s.pc u <;> simp [SF.PC.holdsLock], fun y => sf_holder_enabled u hh y⟩
+  cases hst : SF.step s t 0 with
+  | some s' => exact ⟨t, ht, fun y => indep t 0 y (by simp [hst])⟩
+  | none =>
+    rcases sf_keys_independent h t 0 hst with ⟨u, hl, _, _⟩ | ⟨_, u, _, hw, _⟩
+    · exact lockcase (by simp [hl])
+    · -- the leader we wait for is enabled, or itself waits for the mutex
+      cases hsu : SF.step s u 0 with
+      | some s' => exact ⟨u, by revert hw; cases s.pc u <;> simp [SF.PC.wgOne], fun y => indep u 0 y (by simp [hsu])⟩
+      | none =>
+        rcases sf_blocked_cases hsu with ⟨_, hl⟩ | ⟨hp, _⟩
+        · exact lockcase hl
+        · rw [hp] at hw; simp [SF.PC.wgOne] at hw
 
 /-- the model's control flow is the one the statement table (tied to the source in `Tie.lean`) lists. -/
 theorem sf_flow {s s' : SF.St} {t : Tid} {x : Nat} (hs : SF.step s t x = some s') :
@@ -85,6 +169,12 @@ theorem sfDemo_reach : ∀ s, SF.run SF.init sfDemo = some s → SF.Reach s := b
 
 example : (SF.run SF.init sfDemo).map (fun s => s.rets.map fun r => (r.tid, r.key, r.val, r.fresh, r.exec))
     = some [(2, 7, 42, false, 0), (1, 7, 42, false, 0), (0, 7, 42, true, 0)] := by decide
+
+/-- in `sfDemo`, after 12 steps goroutine 1 is blocked at `c.wg.Wait()`; `sf_keys_independent` names goroutine 0
+(same key), and `sf_no_deadlock` is witnessed by goroutine 0 being enabled. -/
+example : (SF.run SF.init (sfDemo.take 12)).map
+      (fun s => (s.pc 1, (SF.step s 1 0).isSome, decide (s.key 0 = s.key 1), (SF.step s 0 0).isSome))
+    = some (SF.PC.w1, false, true, true) := by decide
 
 /-! ## LockedCalls (core/syncx/lockedcalls.go) -/
 
@@ -150,6 +240,34 @@ theorem lc_lock_released {s : LC.St} (h : LC.Reach s) (u : Tid) (hl : s.lock = s
   · exact ⟨2, by omega, by simp [List.replicate, LC.run, LC.step, hpc, upd]⟩
   · exact ⟨1, by omega, by simp [List.replicate, LC.run, LC.step, hpc, upd]⟩
 
+
+/-- **No deadlock, no lost wake-up** (the reason for "delete first, Done later"): whenever some LockedCalls call
+is in progress, some goroutine that is inside a call can take a step. -/
+theorem lc_no_deadlock {s : LC.St} (h : LC.Reach s) (t : Tid) (ht : s.pc t ≠ .idle) :
+    ∃ u, s.pc u ≠ .idle ∧ ∀ y, (LC.step s u y).isSome = true := by
+  have hi := LC.inv_reach h
+  have indep : ∀ u y z, (LC.step s u y).isSome = true → (LC.step s u z).isSome = true := by
+    intro u y z
+    unfold LC.step
+    cases s.pc u <;> simp <;> (try split) <;> simp
+  have lockcase : s.lock ≠ none → ∃ u, s.pc u ≠ .idle ∧ ∀ y, (LC.step s u y).isSome = true := by
+    intro hl
+    cases hlk : s.lock with
+    | none => exact absurd hlk hl
+    | some u =>
+      have hh := hi.lockr u hlk
+      exact ⟨u, by revert hh; cases s.pc u <;> simp [LC.PC.holdsLock], fun y => lc_holder_enabled u hh y⟩
+  cases hst : LC.step s t 0 with
+  | some s' => exact ⟨t, ht, fun y => indep t 0 y (by simp [hst])⟩
+  | none =>
+    rcases lc_keys_independent h t 0 hst with ⟨u, hl, _, _⟩ | ⟨_, u, _, hw, _⟩
+    · exact lockcase (by simp [hl])
+    · cases hsu : LC.step s u 0 with
+      | some s' => exact ⟨u, by revert hw; cases s.pc u <;> simp [LC.PC.wgOne], fun y => indep u 0 y (by simp [hsu])⟩
+      | none =>
+        rcases lc_blocked_cases hsu with ⟨_, hl⟩ | ⟨hp, _⟩
+        · exact lockcase hl
+        · rw [hp] at hw; simp [LC.PC.wgOne] at hw
 
 theorem lc_flow {s s' : LC.St} {t : Tid} {x : Nat} (hs : LC.step s t x = some s') :
     s'.pc t ∈ LC.succ (s.pc t) ∧ ∀ u, u ≠ t → s'.pc u = s.pc u := LC.step_flow hs
